@@ -6,6 +6,7 @@ import (
 	"bytes"
 	"fmt"
 	"os"
+	"path/filepath"
 	"sort"
 	"strings"
 	"sync"
@@ -22,7 +23,7 @@ func Run(c *core.Ctx) int {
 	t0 := time.Now()
 	only := os.Getenv("VERIF_C19_ONLY") // development aid: "streams" or "programs"
 	ss := &streamStats{classes: map[string]int{}}
-	if only != "programs" {
+	if only != "programs" && only != "sentinels" {
 		ss = runStreams(c, sink)
 	}
 	t1 := time.Now()
@@ -203,11 +204,12 @@ func runStreams(c *core.Ctx, sink *failSink) *streamStats {
 		}
 		mu.Lock()
 		total.add(st)
-		if len(total.samples) < 2 && len(st.samples) > 0 {
+		if (bi == 0 || bi == nb) && len(st.samples) > 0 {
 			total.samples = append(total.samples, st.samples[0])
 		}
 		mu.Unlock()
 	})
+	sort.Slice(total.samples, func(i, j int) bool { return fmt.Sprint(total.samples[i]) < fmt.Sprint(total.samples[j]) })
 	sourceNameExperiment(c, sink, total)
 	return total
 }
@@ -508,6 +510,7 @@ func sourceNameExperiment(c *core.Ctx, sink *failSink, st *streamStats) {
 
 type progTotals struct {
 	progStats
+	sentinels int
 	programs  int
 	templates map[string]int
 	samples   []any
@@ -515,24 +518,37 @@ type progTotals struct {
 
 func runPrograms(c *core.Ctx, sink *failSink) *progTotals {
 	n := c.N(24, 600)
+	if os.Getenv("VERIF_C19_ONLY") == "sentinels" {
+		n = 0
+	}
 	t := &progTotals{templates: map[string]int{}}
 	t.distinct = map[string]bool{}
 	t.kinds = map[string]bool{}
-	progs := make([]*GenProgram, n)
+	// fixed regression programs first, then the generated corpus
+	progs, err := loadSentinels(filepath.Join(c.Verif, "sentinels", "C19"))
+	if err != nil {
+		fmt.Println("C19: sentinel programs unreadable:", err)
+		c.Inconclusive("sentinels-unreadable")
+	}
+	nSent := len(progs)
+	t.sentinels = nSent
 	for i := 0; i < n; i++ {
 		tpl := templates[i%len(templates)]
 		name := fmt.Sprintf("c19-%s-%03d", tpl, i)
-		progs[i] = genProgram(c.Rand("prog/"+name), name, tpl)
+		p := genProgram(c.Rand("prog/"+name), name, tpl)
 		if i%len(templates) == 0 && (i/len(templates))%4 == 1 {
-			progs[i].GopathSibling = true
-			progs[i].Name += "-gopath-sibling"
+			p.GopathSibling = true
+			p.Name += "-gopath-sibling"
 		}
+		progs = append(progs, p)
 	}
+	n = len(progs)
 	var mu sync.Mutex
+	bySample := map[int]any{}
 	c.Parallel(n, func(i int) {
 		p := progs[i]
 		nu := 0
-		if i%2 == 0 {
+		if i%2 == 0 || i < nSent {
 			nu = 1 // uncaught-mode probes (one process per probe) on every other program
 		}
 		st := checkProgram(c, i, p, sink, nu)
@@ -564,9 +580,15 @@ func runPrograms(c *core.Ctx, sink *failSink) *progTotals {
 		for k := range st.kinds {
 			t.kinds[k] = true
 		}
-		if st.sample != nil && len(t.samples) < 3 {
-			t.samples = append(t.samples, st.sample)
+		if st.sample != nil {
+			bySample[i] = st.sample
 		}
 	})
+	// samples: the first programs in generation order (independent of scheduling)
+	for i := 0; i < n && len(t.samples) < 3; i++ {
+		if s, ok := bySample[i]; ok && (i == 0 || i >= nSent) {
+			t.samples = append(t.samples, s)
+		}
+	}
 	return t
 }
